@@ -88,6 +88,11 @@ class Report:
                 r(e, self)
             except AnalysisError as ex:
                 errors.append(f"{getattr(r, '__name__', r)}: {ex}")
+            except Exception as ex:  # noqa -- an internal error of one rule is an analysis error of that rule, never a pass and never a violation
+                import traceback
+                tb = traceback.extract_tb(ex.__traceback__)[-1]
+                errors.append(f"{getattr(r, '__name__', r)}: internal error {type(ex).__name__}: {ex} ({os.path.basename(tb.filename)}:{tb.lineno}); "
+                              "the code has a shape this rule does not understand")
         self.analysis_errors = getattr(self, "analysis_errors", []) + errors
         for er in errors:
             self.note("analysis incomplete: " + er)
